@@ -1353,7 +1353,10 @@ fn pruned_mode(out: &mut Out, rng: &mut Rng, thorough: bool) {
 			let mut compacted = false;
 			let mut ps = PSrc::new(&dir_c);
 			// growth: leaf 0 is the receiver's genesis output
-			ps.block(Some(g_out), rng.range(300, 600), &[]);
+			// its own block: TransactionBody::init sorts the outputs of a block by commitment, and leaf 0
+			// must be exactly the receiver's genesis leaf (the receiver never re-pushes position 0)
+			ps.block(Some(g_out), 1, &[]);
+			ps.block(None, rng.range(300, 600), &[]);
 			let grow_to = *n_target - 40;
 			while ps.n < grow_to {
 				let k = rng.range(300, 600).min(grow_to - ps.n);
@@ -1404,6 +1407,17 @@ fn pruned_mode(out: &mut Out, rng: &mut Rng, thorough: bool) {
 					Ok((ext.extension.roots()?, ext.extension.bitmap_accumulator(), ext.extension.output_readonly_pmmr().peaks()))
 				}),
 				"roots",
+			)
+		};
+		let src_hashes: Vec<Option<Hash>> = {
+			let mut t = ps.txhs.write();
+			let osz = ps.headers.last().unwrap().output_mmr_size;
+			perr(
+				grin_chain::txhashset::extending_readonly(&mut ps.header_pmmr, &mut t, |ext, _b| {
+					let p = ext.extension.output_readonly_pmmr();
+					Ok((0..osz).map(|x| p.get_from_file(x)).collect())
+				}),
+				"source hashes",
 			)
 		};
 		// which side is the defining construction: the output MMR recomputed from the element list alone
@@ -1463,6 +1477,38 @@ fn pruned_mode(out: &mut Out, rng: &mut Rng, thorough: bool) {
 			}
 			let dest = Subject::new(&format!("{}/deseg_pruned_dst_{}", work, rcv), &kit.genesis);
 			let ok = run_receiver(out, &mut st, rng, &tag, &dest, &ah, heights, &src, &plan, false);
+			if std::env::var("VERIF_PRUNED_DEBUG").is_ok() {
+				let chain = dest.c();
+				let hp = chain.header_pmmr();
+				let ts = chain.txhashset();
+				let mut header_pmmr = hp.write();
+				let mut txhashset = ts.write();
+				let osz = ah.output_mmr_size;
+				let dh: Vec<Option<Hash>> = perr(
+					grin_chain::txhashset::extending_readonly(&mut header_pmmr, &mut txhashset, |ext, _b| {
+						let p = ext.extension.output_readonly_pmmr();
+						Ok((0..osz).map(|x| p.get_from_file(x)).collect())
+					}),
+					"receiver hashes",
+				);
+				let mut diff: Vec<String> = vec![];
+				let mut only_src = 0u64;
+				let mut only_dst = 0u64;
+				for x in 0..osz as usize {
+					match (&src_hashes[x], &dh[x]) {
+						(Some(a), Some(b)) if a != b => diff.push(format!("{}(h{})", x, pmmr::bintree_postorder_height(x as u64))),
+						(Some(_), None) => only_src += 1,
+						(None, Some(_)) => only_dst += 1,
+						_ => {}
+					}
+				}
+				eprintln!("PRUNED-DEBUG {}: positions with different hashes ({}): {:?}; on file at the source only {} at the receiver only {}", tag, diff.len(), &diff[..diff.len().min(30)], only_src, only_dst);
+				for x in [0usize, 1, 2, 2046, 2047, 2048, 2049, 3069, 3070, 4092, 4093, 4094] {
+					if x < osz as usize {
+						eprintln!("PRUNED-DEBUG   pos {} src {:?} dst {:?}", x, src_hashes[x].map(|h| hex(h.as_bytes())[..8].to_string()), dh[x].map(|h| hex(h.as_bytes())[..8].to_string()));
+					}
+				}
+			}
 			if ok && zero_mid {
 				st.inc("receivers-complete:source-with-compacted-all-zero-chunk-before-unspent-outputs");
 			}
